@@ -51,6 +51,9 @@ DATA = {
     "union": [{"legs": 4, "tricks": 2}, {"legs": 4, "lives": 3}, None, "s"],
     "list": [{"v": 1, "next": {"v": 2, "next": None}}],
 }
+RAW["flt"] = {"type": "record", "name": "Reading", "fields": [{"name": "reading", "type": "double"}, {"name": "ratio", "type": "float"}, {"name": "xs", "type": {"type": "array", "items": "double"}}]}
+DATA["flt"] = [{"reading": 1234.5, "ratio": 0.25, "xs": [1.0, -2.5]}, {"reading": -0.001953125, "ratio": 96.0, "xs": [3.25]}]
+
 RAW["colA"] = {"type": "record", "name": "pal.Palette", "fields": [{"name": "main", "type": {"type": "enum", "name": "Color", "symbols": ["RED", "GREEN", "BLUE"]}},
                                                                {"name": "others", "type": {"type": "array", "items": "Color"}}, {"name": "m", "type": {"type": "map", "values": "pal.Color"}}]}
 RAW["colB"] = {"type": "record", "name": "pal.Palette", "fields": [{"name": "main", "type": {"type": "enum", "name": "Color", "symbols": ["CYAN", "MAGENTA", "YELLOW", "KEY"]}},
@@ -60,8 +63,8 @@ DATA["colB"] = [{"main": "KEY", "others": ["CYAN", "MAGENTA", "YELLOW"], "m": {"
 KINDS = ["swrite", "sread", "validate", "cwrite", "cread", "jwrite", "jread", "parse", "canon", "fingerprint", "sread_rs", "swrite_bad", "sread_short", "validate_raise", "sread_named", "cread_recname"]
 FAILING = ("swrite_bad", "sread_short", "validate_raise")
 BAD = {"dec_hi": "not a decimal", "dec_lo": 5.5, "fdec": b"x", "rec": {"id": "x", "tags": [], "m": {}, "e": "A"}, "logical": {"d": "nope", "ts": 1, "u": "u", "dec": D("1"), "dec2": D("1")},
-       "union": 12.5, "list": {"v": 1, "next": {"v": "x"}}, "colA": {"main": "KEY", "others": [], "m": {}}, "colB": {"main": "RED", "others": [], "m": {}}}
-JSON_OK = {"rec", "union", "dec_lo", "dec_hi", "logical", "colA", "colB"}
+       "union": 12.5, "list": {"v": 1, "next": {"v": "x"}}, "colA": {"main": "KEY", "others": [], "m": {}}, "colB": {"main": "RED", "others": [], "m": {}}, "flt": {"reading": "x", "ratio": 1.0, "xs": []}}
+JSON_OK = {"rec", "union", "dec_lo", "dec_hi", "logical", "colA", "colB", "flt"}
 _CHECK = None
 
 
@@ -228,6 +231,8 @@ class C18(Check):
         return [c for i, c in enumerate(self.fixed_cases(tier)) if i % nshards == shard]
 
     def fixed_cases(self, tier):
+        yield {"ops": [{"kind": "swrite", "schema": "flt", "datum": 0, "form": "parsed"}, {"kind": "swrite", "schema": "flt", "datum": 1, "form": "parsed"}], "multi": []}
+        yield {"ops": [{"kind": "cwrite", "schema": "flt", "datum": 1, "form": "raw"}, {"kind": "sread", "schema": "flt", "datum": 0, "form": "parsed"}], "multi": []}
         yield {"ops": [{"kind": "sread_named", "schema": "list", "datum": 0, "form": "parsed"}, {"kind": "sread_named", "schema": "union", "datum": 0, "form": "parsed"}], "multi": []}
         yield {"ops": [{"kind": "cread_recname", "schema": "union", "datum": 1, "form": "parsed"}, {"kind": "cread_recname", "schema": "list", "datum": 0, "form": "parsed"}], "multi": []}
         yield {"ops": [{"kind": "swrite_bad", "schema": "rec", "datum": 0, "form": "parsed"}, {"kind": "swrite", "schema": "rec", "datum": 0, "form": "parsed"}], "multi": []}
